@@ -30,9 +30,13 @@ next to an arbitrary table of other module records and any position of the dynam
   afterwards is the ACK's (= the manager's record), a dynamic one is in range and held by no other record;
 * `disconnected_refuses`; `life_step_meets_spec`, `life_history_meets_spec`, `life_from_init_meets_spec` — the
   life-cycle Spec (`Spec/ClientLife.lean`, the oracle run on the implementation) holds of the model.
+Every history theorem asks for `ops.all LOp.timely`: no handshake of the history is answered later than the 3 s of
+`_wait_for_acknowledgement` (`connectLate`).  The model has that operation too — exactly as the code behaves — and
+`late_ack_breaks_agreement` is the kernel-checked counterexample: `connect()` then raises `AcknowledgementTimeout`
+but leaves the object connected and un-reset (open finding C02-F4, `out/defect_1.md`).
 Not in the model: module names (the harness connects with the empty name), a connection that dies *between* two
 control frames of one call (the frames of a call travel in unspecified order; only "before the first" is modelled),
-`AcknowledgementTimeout`, logger / daemon flags (they do not touch the subscription state; C06 entry model).
+logger / daemon flags (they do not touch the subscription state; C06 entry model).
 -/
 namespace Pyrtma.C02
 open Pyrtma.ClientSub
@@ -229,30 +233,31 @@ def reach (cfg : IdCfg) (created : Int) (others : List (Int × Bool)) (cursor : 
   lrun cfg (LSys.init created others cursor) ops
 
 theorem life_invariant (cfg : IdCfg) (created : Int) (others : List (Int × Bool)) (cursor : Nat)
-    (hc : cursor < cfg.maxDyn) (ops : List LOp) :
+    (hc : cursor < cfg.maxDyn) (ops : List LOp) (ht : ops.all LOp.timely = true) :
     LInv cfg (reach cfg created others cursor ops) ∧ (reach cfg created others cursor ops).cl.created = created :=
-  lrun_inv ops (linv_init cfg created others cursor hc)
+  lrun_inv ops (linv_init cfg created others cursor hc) ht
 
 /-- **Agreement over any number of sessions.**  After every history, a connected client's *current* connection is in
 the manager's table, the two sides agree on the subscription set (`Agree`), a probe of type `t` reaches the client
 iff it reports `t` (or ALL), and paused types are not delivered.  Whatever earlier sessions subscribed to, however
 they ended. -/
 theorem life_agree_history (cfg : IdCfg) (created : Int) (others : List (Int × Bool)) (cursor : Nat)
-    (hc : cursor < cfg.maxDyn) (ops : List LOp) (hconn : (reach cfg created others cursor ops).cl.connected = true) :
+    (hc : cursor < cfg.maxDyn) (ops : List LOp) (ht : ops.all LOp.timely = true)
+    (hconn : (reach cfg created others cursor ops).cl.connected = true) :
     ∃ r, (reach cfg created others cursor ops).mg.find (reach cfg created others cursor ops).cl.conn = some r ∧
       Agree (reach cfg created others cursor ops).cl.sub r.m ∧
       (∀ t, delivered r.m t = true ↔ (t ∈ (reach cfg created others cursor ops).cl.sub.subscribed ∨
         ALL ∈ (reach cfg created others cursor ops).cl.sub.subscribed)) ∧
       (∀ t ∈ (reach cfg created others cursor ops).cl.sub.paused, delivered r.m t = false) := by
-  obtain ⟨r, hf, _, _, hag⟩ := (life_invariant cfg created others cursor hc ops).1.cur hconn
+  obtain ⟨r, hf, _, _, hag⟩ := (life_invariant cfg created others cursor hc ops ht).1.cur hconn
   exact ⟨r, hf, hag, delivered_iff hag, paused_not_delivered hag⟩
 
 /-- … and after **every phase** of the next call too (entry and exit of the context managers included). -/
-theorem life_agree_every_phase {cfg : IdCfg} {s : LSys} (h : LInv cfg s) (op : LOp) :
+theorem life_agree_every_phase {cfg : IdCfg} {s : LSys} (h : LInv cfg s) (op : LOp) (ht : op.timely = true) :
     ∀ x ∈ lstep cfg s op, x.1.cl.connected = true →
       ∃ r, x.2.find x.1.cl.conn = some r ∧ Agree x.1.cl.sub r.m := by
   intro x hx hc
-  obtain ⟨r, hf, _, _, hag⟩ := ((lstep_facts h op).1 x hx).inv.cur hc
+  obtain ⟨r, hf, _, _, hag⟩ := ((lstep_facts h op ht).1 x hx).inv.cur hc
   exact ⟨r, hf, hag⟩
 
 /-- **Right after any (re)connect both sides are empty and not subscribed-to-all** — on a client that was connected,
@@ -272,9 +277,9 @@ theorem connect_starts_empty {cfg : IdCfg} {s : LSys} (h : LInv cfg s) (allow : 
 /-- **Every connect asks for the id the object was created with** (0 = "assign me one"), whatever happened before:
 after any history — a dynamic id learnt in an earlier session, a lost connection, a refused connect. -/
 theorem connect_requests_created_id (cfg : IdCfg) (created : Int) (others : List (Int × Bool)) (cursor : Nat)
-    (hc : cursor < cfg.maxDyn) (ops : List LOp) (allow : Bool) :
+    (hc : cursor < cfg.maxDyn) (ops : List LOp) (ht : ops.all LOp.timely = true) (allow : Bool) :
     (connectOp cfg (reach cfg created others cursor ops) allow).1.req = some created := by
-  obtain ⟨hinv, hcr⟩ := life_invariant cfg created others cursor hc ops
+  obtain ⟨hinv, hcr⟩ := life_invariant cfg created others cursor hc ops ht
   obtain ⟨hf, hs⟩ := connectOp_facts hinv allow
   obtain ⟨q, hq⟩ := Option.isSome_iff_exists.1 hs
   rw [hq, (hf.req q hq).1, hcr]
@@ -313,6 +318,20 @@ theorem dynamic_id_fresh {cfg : IdCfg} {s : LSys} (h : LInv cfg s) (hdyn : s.cl.
 theorem lost_keeps_state (s : LSys) (n : Bool) :
     (loseConn s n).1.cl = { s.cl with connected := false } ∧ (loseConn s n).1.status = .lost := ⟨rfl, rfl⟩
 
+/-- **Why the theorems ask for timely handshakes (open finding C02-F4).**  A client subscribed to 7 loses its
+connection and connects again; the manager answers after the client's 3 s: `connect()` raises
+`AcknowledgementTimeout` and leaves the object *connected*, still reporting 7 — and, created with id 0, reporting
+`module_id` 0 — while the manager, which has by now accepted the connection as id 101, holds an empty record for it:
+the invariant is broken and the life-cycle Spec fails on the model's own trace. -/
+theorem late_ack_breaks_agreement :
+    let s := reach {} 0 [] 0 [.connect false, .sub (.ctl .subscribe [7]), .lostRead true, .connectLate false]
+    s.cl.connected = true ∧ s.cl.sub.subscribed = [7] ∧ s.cl.modId = 0 ∧
+    s.mg.conns.map (fun r => (r.cid, r.modId, r.live, r.m.subs)) = [(2, 101, true, [])] ∧
+    lhistOk {} [7] 0 (LObs.fresh 0) [.connect false, .sub (.ctl .subscribe [7]), .lostRead true, .connectLate false]
+      (ltrace {} [7] (LSys.init 0 [] 0) [.connect false, .sub (.ctl .subscribe [7]), .lostRead true, .connectLate false])
+      = false := by
+  decide +kernel
+
 /-- `disconnect()` resets the three subscription fields and keeps the id. -/
 theorem disconnect_resets (s : LSys) :
     (disconnectOp s).1.cl = { s.cl with connected := false, sub := ⟨false, [], []⟩ } := rfl
@@ -326,11 +345,11 @@ theorem disconnected_refuses (cfg : IdCfg) (s : LSys) (op : Op) (hop : op ≠ .r
 and `fresh_session_is_empty` after every phase, the first layer's clauses for subscription calls on a connected client,
 `connect_requests_created_id`, `reported_id_is_acked_id`, `dynamic_id_fresh_and_in_range`. -/
 theorem life_step_meets_spec (U : List Int) {cfg : IdCfg} {s : LSys} (h : LInv cfg s) (pre : LObs)
-    (hv : pre.view = lview U s.cl s.mg) (hcn : pre.connected = s.cl.connected) (op : LOp) :
+    (hv : pre.view = lview U s.cl s.mg) (hcn : pre.connected = s.cl.connected) (op : LOp) (ht : op.timely = true) :
     ((lstep cfg s op).map (lobs U)).isEmpty = false ∧
     lopFail02 U pre op ((lstep cfg s op).map (lobs U)) = none ∧
     lopFail06 cfg s.cl.created op ((lstep cfg s op).map (lobs U)) = none := by
-  obtain ⟨hfacts, hne, hconn⟩ := lstep_facts h op
+  obtain ⟨hfacts, hne, hconn⟩ := lstep_facts h op ht
   refine ⟨by simpa using hne, ?_, ?_⟩
   · -- C02
     have hlife : (((lstep cfg s op).map (lobs U)).flatMap (lifeC02 U)).find? (fun c => !c.2) = none := by
@@ -367,28 +386,29 @@ theorem life_step_meets_spec (U : List Int) {cfg : IdCfg} {s : LSys} (h : LInv c
       intro c hc
       obtain ⟨o, ho, hco⟩ := List.mem_flatMap.1 hc
       obtain ⟨x, hx, rfl⟩ := List.mem_map.1 ho
-      simp [lifeC06_ok U (hfacts x hx) op (fun a ha => hconn a ha x hx) c hco]
+      simp [lifeC06_ok U (hfacts x hx) op (fun ha => hconn ha x hx) c hco]
     rw [this]; rfl
 
 /-- **Every history of calls on one client object meets the life-cycle Spec** — the oracle the driver evaluates on
 what the real `Client` and the real manager did, call by call, each call judged from the observation its
 predecessors left behind. -/
 theorem life_history_meets_spec (U : List Int) (cfg : IdCfg) : ∀ (ops : List LOp) (s : LSys) (pre : LObs),
-    LInv cfg s → pre.view = lview U s.cl s.mg → pre.connected = s.cl.connected →
+    LInv cfg s → pre.view = lview U s.cl s.mg → pre.connected = s.cl.connected → ops.all LOp.timely = true →
     lhistOk cfg U s.cl.created pre ops (ltrace cfg U s ops) = true
-  | [], _, _, _, _, _ => rfl
-  | op :: ops, s, pre, h, hv, hcn => by
-    obtain ⟨h1, h2, h3⟩ := life_step_meets_spec U h pre hv hcn op
-    obtain ⟨hinv, hcr⟩ := lstep_inv h op
-    obtain ⟨hv', hcn'⟩ := lastObs_lafter U pre s (lstep cfg s op) (lstep_facts h op).2.1
-    have ih := life_history_meets_spec U cfg ops _ _ hinv hv' hcn'
+  | [], _, _, _, _, _, _ => rfl
+  | op :: ops, s, pre, h, hv, hcn, ht => by
+    simp only [List.all_cons, Bool.and_eq_true] at ht
+    obtain ⟨h1, h2, h3⟩ := life_step_meets_spec U h pre hv hcn op ht.1
+    obtain ⟨hinv, hcr⟩ := lstep_inv h op ht.1
+    obtain ⟨hv', hcn'⟩ := lastObs_lafter U pre s (lstep cfg s op) (lstep_facts h op ht.1).2.1
+    have ih := life_history_meets_spec U cfg ops _ _ hinv hv' hcn' ht.2
     rw [hcr] at ih
     simp only [ltrace, lhistOk, h1, h2, h3, Bool.not_false, Option.isNone_none, Bool.true_and]
     exact ih
 
 /-- … in particular from the constructor on -/
 theorem life_from_init_meets_spec (U : List Int) (cfg : IdCfg) (created : Int) (others : List (Int × Bool)) (cursor : Nat)
-    (hc : cursor < cfg.maxDyn) (ops : List LOp) :
+    (hc : cursor < cfg.maxDyn) (ops : List LOp) (ht : ops.all LOp.timely = true) :
     lhistOk cfg U created (LObs.fresh created) ops (ltrace cfg U (LSys.init created others cursor) ops) = true := by
   have h := linv_init cfg created others cursor hc
   have hnone : (LSys.init created others cursor).mg.find 0 = none := by
@@ -400,7 +420,7 @@ theorem life_from_init_meets_spec (U : List Int) (cfg : IdCfg) (created : Int) (
   exact life_history_meets_spec U cfg ops (LSys.init created others cursor) (LObs.fresh created) h
     (by simp only [LObs.fresh, lview]
         have : (LSys.init created others cursor).cl.conn = 0 := rfl
-        rw [this, hnone]; rfl) rfl
+        rw [this, hnone]; rfl) rfl ht
 
 
 /-! ### Non-vacuity and the repaired defects as concrete witnesses -/
